@@ -102,3 +102,27 @@ CONTRACTS = {
         loops=[{"invariant": []}],
     ),
 }
+
+CONTRACTS.update({
+    RV + "validate_runner_compatibility": dict(
+        props=["C08", "C14"],
+        params={"graph": OBJ("Graph"), "capabilities": ANY},
+        returns=NONE_T,
+        raises={"IncompatibleRunnerError": "(bool(graph.has_async_nodes) and not capabilities.supports_async_nodes) or (bool(graph.has_cycles) and not capabilities.supports_cycles) or (bool(graph.has_interrupts) and not capabilities.supports_interrupts)"},
+        modifies=[],
+    ),
+    RV + "validate_map_compatible": dict(
+        props=["C10", "C14"],
+        params={"graph": OBJ("Graph")},
+        returns=NONE_T,
+        raises={"IncompatibleRunnerError": "bool(graph.has_interrupts)"},
+        modifies=[],
+    ),
+    RV + "_validate_on_internal_override": dict(
+        props=["C08"],
+        params={"policy": STR},
+        returns=NONE_T,
+        raises={"ValueError": "policy not in ('ignore', 'warn', 'error')"},
+        modifies=[],
+    ),
+})
